@@ -1,9 +1,10 @@
 (* Request handler used by the extracted driver and by cases.v replays:
    one request (a list of numbers) in, one canonical result (code points) out.
    Request = opcode :: length-prefixed strings. *)
-From Coq Require Import List NArith Bool Arith.
+From Coq Require Import List NArith ZArith Bool Arith.
 Import ListNotations.
 From PV Require Import Regex Base UnicodeTables LexTables PyRepr Lexer AstDefs AstSpec AstImpl NodeModel ParserTables ParserBase ParserDecl ParserMain ClimbProofs CppArgs.
+From PV Require Generator.
 Open Scope N_scope.
 
 Definition US : N := 31.  (* field separator *)
@@ -282,6 +283,40 @@ Definition api_path_list (req: list N) : str :=
 Definition ticks_of (text: str) : N :=
   match run_parse text (s2l "f.c") with Ok (_, st) => ticks pos st | _ => 0 end.
 
+(* ---- CGenerator: reduce_parentheses flag, then an encoded AST --------------------------- *)
+Definition api_generate (req: list N) : str :=
+  match req with
+  | rpf :: r =>
+    match rd_value RFUEL r with
+    | Some (v, _) =>
+      match Generator.generate str (nb rpf) 4000 v with
+      | Generator.GOk (t, ind) => fields [s2l "OK"; t; if Z.eqb ind 0 then s2l "0" else s2l "nonzero"]
+      | Generator.GCrash => s2l "CRASH"
+      | Generator.GFuel => s2l "FUEL"
+      end
+    | None => s2l "BADVALUE"
+    end
+  | [] => s2l "BADREQ"
+  end.
+
+(* ---- round trip on the model: parse, generate, parse again ---------------------------- *)
+Definition regen (rp: bool) (text: str) : option str :=
+  match run_parse text (s2l "f.c") with
+  | Ok (ast, _) => match Generator.generate (coord pos) rp 4000 ast with
+                   | Generator.GOk (t, _) => Some t
+                   | _ => None end
+  | _ => None
+  end.
+
+(* parse(gen(parse(src))) = parse(src) up to coordinates, and the second generation equals the first *)
+Definition roundtrip_ok (rp: bool) (text: str) : bool :=
+  match regen rp text with
+  | Some t1 =>
+    str_eqb (outcome_str t1) (outcome_str text) &&
+    match regen rp t1 with Some t2 => str_eqb t1 t2 | None => false end
+  | None => false
+  end.
+
 Definition handle (req: list N) : str :=
   match req with
   | 1 :: r => api_lex r
@@ -290,6 +325,7 @@ Definition handle (req: list N) : str :=
   | 20 :: r => api_parse r
   | 30 :: r => api_climb r
   | 40 :: r => api_path_list r
+  | 50 :: r => api_generate r
   | 10 :: r => api_children r
   | 11 :: r => api_iter r
   | 12 :: r => api_show r
